@@ -154,6 +154,8 @@ theorem doSetInstCore_vals (w : World) (i : InstId) (x : Name) (lit : Lit) :
         have h2 : ValsKept w { w1 with cells := cells2 } none :=
           h1.trans (ValsKept.of_insts (w := w1) (w' := { w1 with cells := cells2 }) rfl none)
         split
+        · exact h2.mono
+        split
         · split <;> exact h2.mono
         · refine h2.mono.trans ?_
           simp only [World.setInst, World.inst?]
@@ -340,13 +342,19 @@ theorem doSetClsCore_touch (w : World) (k : ClsId) (x : Name) (lit : Lit) :
     obtain ⟨⟨e2, rfl⟩, hslots⟩ := hpp
     show ClsTouch w (match validate (({ w with cells := w.cells ++ extra ++ e2 }).setOwn k x p).cells p v with
       | .error e => (({ w with cells := w.cells ++ extra ++ e2 } : World), some e)
-      | .ok cells2 => (({ ({ w with cells := w.cells ++ extra ++ e2 }).setOwn k x p with cells := cells2 }).setOwn k x { p with default := v }, none)).1
+      | .ok cells2 =>
+        if p.readonly then (({ w with cells := cells2 } : World), some Err.typeError)
+        else (({ ({ w with cells := w.cells ++ extra ++ e2 }).setOwn k x p with cells := cells2 }).setOwn k x { p with default := v }, none)).1
     cases hval : validate (({ w with cells := w.cells ++ extra ++ e2 }).setOwn k x p).cells p v with
     | error e => exact ClsTouch.of_append (extra := extra ++ e2) (by simp)
     | ok cells2 =>
       obtain ⟨_, ht⟩ := validate_spec hval
       intro c hc hne
-      simp only [setOwn_cells] at hne ht
+      have hne : deref cells2 c ≠ deref w.cells c := by
+        by_cases hro : p.readonly = true
+        · simpa [hro] using hne
+        · simpa [hro, setOwn_cells] using hne
+      simp only [setOwn_cells] at ht
       have hch : deref cells2 c ≠ deref (w.cells ++ extra ++ e2) c := by
         intro e; apply hne; rw [e, List.append_assoc]; exact deref_append_lt hc
       rcases hslots c (ht c hch) with h | h
